@@ -42,13 +42,13 @@ package ext
 //@ func tryReadTrailer(t, r, n) err
 //@   props C03
 //@   requires r != nil && t != nil
-//@   modifies t._all, alltype(protocol.argsKV), r.pos, r.avail, r.failed, mem
+//@   modifies t._all, alltype(protocol.argsKV), r.pos, r.avail, r.failed, mem, parseArr
 //@   allocates
 
 //@ func ReadTrailer(t, r) err
 //@   props C03
 //@   requires r != nil && t != nil
-//@   modifies t._all, alltype(protocol.argsKV), r.pos, r.avail, r.failed, mem
+//@   modifies t._all, alltype(protocol.argsKV), r.pos, r.avail, r.failed, mem, parseArr
 //@   allocates
 
 //@ func trySkipTrailer(r, n) err
@@ -195,6 +195,7 @@ package ext
 //@   modifies s._all, mem
 //@   ensures r ==> hsInv(s)
 //@   ensures r ==> sameArray(s.Key, s.B) && sameArray(s.Value, s.B)
+//@   ensures sameArray(s.B, old(s.B))
 //@   ensures s.HLen + len(s.B) == old(s.HLen + len(s.B)) && s.HLen >= old(s.HLen)
 //@   unreachable-return 6 :: the length check after the continuation-line loop is defensive: n is the index of a line feed inside the window on every path into it
 //@   assert after normalizeHeaderValue#0: off(result1) == off(s.B) && len(result1) == len(s.B)
@@ -249,8 +250,9 @@ package ext
 //@ func parseTrailer(t, buf) n, err
 //@   props C03
 //@   requires len(buf) > 0 && t != nil
-//@   modifies t._all, alltype(protocol.argsKV), mem
+//@   modifies t._all, alltype(protocol.argsKV), mem, parseArr
+//@   ghostset-at-entry parseArr = arr(buf)
 //@   allocates
 //@   ensures err == nil ==> 0 <= n && n <= len(buf)
 //@   loop 0:
-//@     invariant hsInv(s) && s.HLen + len(s.B) <= len(old(buf))
+//@     invariant hsInv(s) && s.HLen + len(s.B) <= len(old(buf)) && arr(s.B) == parseArr
